@@ -165,6 +165,7 @@ func MakeConfig(seed uint64, profile, tier string) SwarmConfig {
 	case "C19":
 		c.Replica = true
 		c.Reexec = true
+		c.ProdBoot = r.IntN(2) == 0
 		c.ReexecDumpAt = int64(4 + r.IntN(max(1, c.Horizon-8)))
 		f.Restart = pick(r, []float64{0.1, 0.3})
 		if tier == "thorough" {
